@@ -718,8 +718,10 @@ def expand(item):
     try:
         out = "ok"
         mid = []
+        actual = []
         for k, op in enumerate(hist):
             out = apply(st, op)
+            actual.append(out)
             if k < len(outs) and out != outs[k]:
                 raise RuntimeError("prefix replay diverged at %d %s: %s != %s" % (k, op, out, outs[k]))
             if init.get("interleave") and k < len(hist) - 1 and not mid:
@@ -746,7 +748,7 @@ def expand(item):
             if observe.digest(observe.obs(st.r, rank=True)) != live_before:
                 vl.append(("observer-mutates-reactor", "the live reactor changed while the database was only queried"))
         case = st.case(item)
-        case["outs"] = list(outs)[: max(0, len(hist) - 1)] + ([out] if hist else [])
+        case["outs"] = actual
         seen = set()
         viols = []
         for key, msg in vl:
@@ -816,11 +818,12 @@ def split_item(item):
             res["n"] += 1
             if min(c for c, n in keep) > 0:
                 res["shifted"] += 1
-            for key, msg in st.viols + check_split(st, keep, "%d" % i, load_one=True, query_first=(i % 3 != 2), load_first=(i % 3 == 0)):
+            qf, lf = item.get("flags") or [i % 3 != 2, i % 3 == 0]  # observers first on the object that is split?
+            for key, msg in st.viols + check_split(st, keep, "%d" % i, load_one=True, query_first=qf, load_first=lf):
                 if key in seen:
                     continue
                 seen.add(key)
-                case = {"part": "S", "times": item["times"], "eol": bool(item.get("eol")), "seed": item.get("seed", 0), "keeps": [keep]}
+                case = {"part": "S", "times": item["times"], "eol": bool(item.get("eol")), "seed": item.get("seed", 0), "keeps": [keep], "flags": [bool(qf), bool(lf)]}
                 res["viols"].append(core.viol("c06/" + key, "snapshots at %s%s: %s" % ([TIMES[t] for t in item["times"]], " + EOL" if item.get("eol") else "", msg), case))
         return res
     finally:
